@@ -92,6 +92,13 @@ func (g *opGen) argString(f *ast.FieldDefinition) string {
 			b := g.rng.Intn(2) == 0
 			lit, val = fmt.Sprint(b), b
 		default:
+			if td := g.schema.Types[a.Type.Name()]; td != nil && td.Kind == ast.Scalar && a.Type.Elem == nil {
+				// a custom scalar takes any literal; the schema has no types for the positions inside
+				lit, _ := g.freeValue(2)
+				parts = append(parts, a.Name+": "+lit)
+				g.feat["custom_scalar_argument"] = true
+				continue
+			}
 			if td := g.schema.Types[a.Type.Name()]; td != nil && td.Kind == ast.InputObject {
 				if g.opt.Variables && g.rng.Intn(5) == 0 {
 					// the whole argument as one variable
@@ -216,6 +223,52 @@ func (g *opGen) inputValue(t *ast.Type, depth int, vars bool) (string, interface
 			decl += "!" // a stricter client declaration is acceptable at a nullable position
 		}
 		return asVar(val, decl), val
+	}
+	return lit, val
+}
+
+// freeValue renders an arbitrary literal (scalars, lists, objects) for a custom scalar, with client variables at
+// some of its leaves.
+func (g *opGen) freeValue(depth int) (string, interface{}) {
+	switch k := g.rng.Intn(6); {
+	case k == 0 && depth > 0:
+		n := 1 + g.rng.Intn(2)
+		var lits []string
+		vals := []interface{}{}
+		for i := 0; i < n; i++ {
+			l, v := g.freeValue(depth - 1)
+			lits = append(lits, l)
+			vals = append(vals, v)
+		}
+		return "[" + strings.Join(lits, ", ") + "]", vals
+	case k <= 2 && depth > 0:
+		n := 1 + g.rng.Intn(2)
+		var lits []string
+		val := map[string]interface{}{}
+		for i := 0; i < n; i++ {
+			l, v := g.freeValue(depth - 1)
+			key := fmt.Sprintf("k%d", i)
+			lits = append(lits, key+": "+l)
+			val[key] = v
+		}
+		return "{" + strings.Join(lits, ", ") + "}", val
+	}
+	var lit, decl string
+	var val interface{}
+	if g.rng.Intn(2) == 0 {
+		n := g.rng.Intn(5)
+		lit, val, decl = fmt.Sprint(n), n, "Int"
+	} else {
+		x := fmt.Sprintf("x%d", g.rng.Intn(9))
+		lit, val, decl = fmt.Sprintf("%q", x), x, "String"
+	}
+	if g.opt.Variables && g.rng.Intn(2) == 0 {
+		name := fmt.Sprintf("v%d", len(g.vars))
+		g.vars = append(g.vars, "$"+name+": "+decl)
+		g.vals[name] = val
+		g.feat["variables"] = true
+		g.feat["variable_inside_custom_scalar"] = true
+		return "$" + name, val
 	}
 	return lit, val
 }
